@@ -40,6 +40,8 @@ fn err_line(e: &ScriptError) -> usize {
         | ScriptError::InvalidQuotesLocation(m)
         | ScriptError::EmptyLabel(m)
         | ScriptError::UnknownPreProcessorCommand(m) => m.line.unwrap_or(0),
+        #[allow(unreachable_patterns)]
+        _ => 0,
     }
 }
 
